@@ -525,16 +525,25 @@ class Type1TagMemoryReader(object):
     def _read_from_tag(self, stop):
         if len(self) < 120:
             read_all_data_response = self._tag.read_all()
+            if len(read_all_data_response) < 2:
+                raise Type1TagCommandError(RESPONSE_ERROR)
             self._header_rom = read_all_data_response[0:2]
             self._data_from_tag[0:] = read_all_data_response[2:]
             self._data_in_cache[0:] = self._data_from_tag[0:]
+            if len(self) < min(stop, 120):
+                raise Type1TagCommandError(RESPONSE_ERROR)
 
         if stop > 120 and len(self) < 128:
             read_block_response = self._tag.read_block(15)
+            if len(read_block_response) != 8:
+                raise Type1TagCommandError(RESPONSE_ERROR)
             self._data_from_tag[120:128] = read_block_response
             self._data_in_cache[120:128] = read_block_response
 
         while len(self) < stop:
+            if len(self) >> 7 > 15:
+                # beyond the memory that can be addressed
+                raise Type1TagCommandError(SECTOR_ERROR)
             data = self._tag.read_segment(len(self) >> 7)
             self._data_from_tag.extend(data)
             self._data_in_cache.extend(data)
